@@ -59,6 +59,7 @@ type Scenario struct {
 	CrashPM     uint64 // amnesia crash chance per API call of an FAmnesia node
 	StallPM     uint64
 	EarlyTimer  bool
+	TriggerCut  bool // event-triggered faults: isolate a node / cut the factions at the moment the first (pre)commit of a height or the first change-view of a view is broadcast
 	ClockSkew   bool
 	ClockJumps  bool
 	AdvPM       uint64 // adversary action chance per event
@@ -321,6 +322,7 @@ func SafetyScenario(t *Tape) *Scenario {
 	sc.CrashPM = pick(t, SScen, uint64(0), 2, 10, 30)
 	sc.StallPM = pick(t, SScen, uint64(0), 2, 10)
 	sc.EarlyTimer = t.Chance(SScen, 1, 3)
+	sc.TriggerCut = t.Chance(SScen, 1, 3)
 	sc.ClockSkew = t.Chance(SScen, 1, 3)
 	sc.ClockJumps = t.Chance(SScen, 1, 5)
 	sc.AdvPM = pick(t, SScen, uint64(0), 50, 150, 400)
@@ -602,6 +604,7 @@ func GSTScenario(t *Tape) *Scenario {
 		sc.DropPM = pick(t, SScen, uint64(0), 50, 200)
 		sc.DupPM = pick(t, SScen, uint64(0), 50)
 		sc.StallPM = pick(t, SScen, uint64(0), 5)
+		sc.TriggerCut = t.Chance(SScen, 1, 2)
 		sc.GST = int64(sc.TPB) * t.Range(SScen, 1, 60)
 	}
 	sc.MapOrder = int(t.Draw(SScen, 3))
